@@ -42,6 +42,9 @@ func (n *NodeMeta) GetNodeMeta() *NodeMeta {
 type Environment struct {
 	Namespaces  []*Namespace `json:"namespaces"`
 	SymbolTable SymbolTable  `json:"-"`
+
+	// set by topologicalSortTypes; the validation passes after it assume an acyclic type graph
+	hasReferenceCycles bool
 }
 
 func (n *Environment) GetNodeMeta() *NodeMeta {
